@@ -288,6 +288,7 @@ class DIP:
         # Create queue/target environment
         queue = self._get_queue()
         target = self.env.copy()
+        target.nodes.cursor = -1
         # Parse nodes
         while len(queue.nodes):
             node = queue.nodes.pop()
@@ -323,12 +324,14 @@ class DIP:
                         if target.nodes[n].constant:
                             raise Exception(f"Node '{target.nodes[n].name}' is constant and cannot be modified:",node.code)
                         target.nodes[n].modify_value(node, target)
+                        target.nodes.cursor = n   # properties that follow belong to the modified node
                         break
                 # If node wasn't defined, create a new node
                 else:
                     if node.keyword=='mod' and node.source[0].startswith(f"{self.name}_{STRING_SOURCE}"):
                         raise Exception(f"Modifying undefined node:",node.name)
                     target.nodes.append(node)
+                    target.nodes.cursor = -1
         # Validate nodes
         for node in target.nodes:
             # Check if all declared nodes have assigned value
